@@ -1,6 +1,7 @@
 use bytes::Bytes;
 use consensus::verif_export::ConsensusMessage;
 use consensus::{Block, Committee, Consensus, Parameters};
+use mempool::{Committee as MCommittee, Mempool, Parameters as MParameters};
 use crypto::{generate_keypair, PublicKey, SecretKey, SignatureService};
 use futures::{FutureExt, SinkExt, StreamExt};
 use network::simnet;
@@ -43,7 +44,12 @@ fn main() {
         keys.iter().enumerate().map(|(i, (pk, _))| (*pk, 1, format!("127.0.0.1:{}", 9000 + i).parse().unwrap())).collect(),
         1,
     );
-    let port_to_node: HashMap<u16, usize> = (0..4).map(|i| (9000 + i as u16, i)).collect();
+    let mcommittee = MCommittee::new(
+        keys.iter().enumerate().map(|(i, (pk, _))| (*pk, 1, format!("127.0.0.1:{}", 9100 + i).parse().unwrap(), format!("127.0.0.1:{}", 9200 + i).parse().unwrap())).collect(),
+        1,
+    );
+    let mut port_to_node: HashMap<u16, usize> = HashMap::new();
+    for i in 0..4u16 { for base in [9000u16, 9100, 9200] { port_to_node.insert(base + i, i as usize); } }
     simnet::reset();
     simnet::install_switch();
     let mut nodes = Vec::new();
@@ -52,14 +58,16 @@ fn main() {
         let path = format!("/dev/shm/h1db_{}", i);
         let _ = std::fs::remove_dir_all(&path);
         let committee = committee.clone();
+        let mcommittee = mcommittee.clone();
         simnet::set_current(i);
         let (commit, txm) = rt.block_on(async move {
             let store = Store::new(&path).unwrap();
             let sig = SignatureService::new(sk);
-            let (tx_c2m, mut rx_c2m) = channel(1000);
+            let (tx_c2m, rx_c2m) = channel(1000);
             let (tx_m2c, rx_m2c) = channel(1000);
             let (tx_commit, rx_commit) = channel(1000);
-            tokio::spawn(async move { while rx_c2m.recv().await.is_some() {} });
+            let mp = MParameters { gc_depth: 50, sync_retry_delay: 5_000, sync_retry_nodes: 3, batch_size: 10, max_batch_delay: 100 };
+            Mempool::spawn(pk, mcommittee, mp, store.clone(), rx_c2m, tx_m2c.clone());
             let p = Parameters { timeout_delay: 1_000, sync_retry_delay: 10_000 };
             Consensus::spawn(pk, committee, p, sig, store, rx_m2c, tx_c2m, tx_commit);
             settle().await;
@@ -71,12 +79,23 @@ fn main() {
     let mut delivered = 0usize;
     let t0 = std::time::Instant::now();
     let crashed: usize = std::env::var("CRASH").ok().and_then(|x| x.parse().ok()).unwrap_or(99);
+    let crash_at: usize = std::env::var("CRASH_AT").ok().and_then(|x| x.parse().ok()).unwrap_or(20);
     let mut advances = 0;
+    let mut submitted = 0;
+    let mut txconns = Vec::new();
     for step in 0..400 {
+        if step % 10 == 3 && step < 200 {
+            let target = (step / 10) % 4;
+            let mut c = Framed::new(simnet::connect_direct(format!("127.0.0.1:{}", 9100 + target).parse().unwrap()).unwrap(), LengthDelimitedCodec::new());
+            let tx = format!("tx-{:04}-0123456789", step);
+            c.send(Bytes::from(tx)).now_or_never().unwrap().unwrap();
+            submitted += 1;
+            txconns.push(c);
+        }
         // run every node until quiescent, collecting its connections / frames
         let mut frames: Vec<(usize, usize, Bytes)> = Vec::new(); // (conn idx, dest node, data)
         for i in 0..4 {
-            if i == crashed && step >= 20 { continue; }
+            if i == crashed && step >= crash_at { continue; }
             simnet::set_current(i);
             nodes[i].rt.block_on(settle());
             for ic in simnet::take_intercepted() {
@@ -99,7 +118,7 @@ fn main() {
 
         }
         for (ci, dest, data) in frames {
-            if dest == crashed && step >= 20 { continue; }
+            if dest == crashed && step >= crash_at { continue; }
             let c = &mut conns[ci];
             if c.to_dest.is_none() {
                 c.to_dest = Some(Framed::new(simnet::connect_direct(c.dest).unwrap(), LengthDelimitedCodec::new()));
@@ -119,9 +138,24 @@ fn main() {
     }
     for (i, n) in nodes.iter_mut().enumerate() {
         let mut rounds = Vec::new();
-        while let Ok(b) = n.commit.try_recv() { rounds.push(b.round); }
-        println!("node {} committed {} blocks, last {:?}", i, rounds.len(), rounds.last());
+        let mut digests = 0;
+        while let Ok(b) = n.commit.try_recv() { rounds.push(b.round); digests += b.payload.len(); }
+        println!("node {} committed {} blocks, last {:?}, payload digests committed {}", i, rounds.len(), rounds.last(), digests);
     }
-    println!("clock advances: {}", advances);
+    println!("clock advances: {} submitted txs: {}", advances, submitted);
+    {
+        use std::io::Write;
+        let idx: HashMap<String, usize> = sorted.iter().enumerate().map(|(i, k)| (base64::encode(&k.0), i)).collect();
+        let mut f = std::fs::File::create("/scratch/h1/trace.ndjson").unwrap();
+        let mut n = 0;
+        for line in consensus::verif::drain() {
+            let mut v: serde_json::Value = serde_json::from_str(&line).unwrap();
+            let name = v["node"].as_str().unwrap().to_string();
+            v["node"] = serde_json::json!(idx[&name]);
+            writeln!(f, "{}", v).unwrap();
+            n += 1;
+        }
+        println!("trace events: {}", n);
+    }
     println!("delivered {} frames in {:?}", delivered, t0.elapsed());
 }
